@@ -81,6 +81,7 @@ def check(run):
     _r2(run, results)
     _r3(run, results, classes)
     _r3c(run, prog, classes)
+    _r8_doppler(run, prog)
     _r45(run, gmod, smod)
     _r6(run, prog)
     _r7(run, classes)
@@ -438,6 +439,95 @@ def _r7(run, classes):
         run.ok('C02-R7', 'MultipletLineShape table', 'stored as %s' % norm(res(sts[0][1]))[:50])
     else:
         run.undecided('C02-R7', 'MultipletLineShape.__init__', 'conversion not recognised')
+
+
+def _r8_doppler(run, prog):
+    """R8: the two helpers every component shares: doppler_shift = lambda (1 + v . d_hat / c) with the viewing vector normalised (callers pass
+    ray directions of any length), thermal_broadening = sqrt(T e / (A m_u)) lambda / c."""
+    from ..algebra import SymEval
+    from ..inline import flatten, module_lookup
+    run.describe('C02-R8', 'doppler_shift = lambda (1 + v . d_hat / c), d_hat the normalised viewing vector; thermal_broadening = sqrt(T e / (A m_u)) lambda / c')
+    mi = prog.modules.get('cherab.core.model.lineshape.doppler')
+    if mi is None or 'doppler_shift' not in mi.functions or 'thermal_broadening' not in mi.functions:
+        raise AnalysisError('anchored function vanished: doppler_shift / thermal_broadening')
+    K = mi.name + '|'
+
+    class E(SymEval):
+        def call(self, n):
+            f = n.func
+            if isinstance(f, ast.Attribute) and f.attr == 'normalise' and not n.args:
+                v = self.ev(f.value)
+                return L('HAT(%s)' % v.key())
+            if isinstance(f, ast.Attribute) and f.attr == 'dot' and len(n.args) == 1:
+                a, b = self.ev(f.value), self.ev(n.args[0])
+                ka, kb = sorted([a.key(), b.key()])
+                if ka.startswith('HAT(') or kb.startswith('HAT('):
+                    h, o = (ka, kb) if ka.startswith('HAT(') else (kb, ka)
+                    return L('DOT(%s,%s)' % tuple(sorted([h[4:-1], o]))) / L('LEN(%s)' % h[4:-1])
+                if ka == kb:
+                    return L('LEN(%s)' % ka) * L('LEN(%s)' % ka)
+                return L('DOT(%s,%s)' % (ka, kb))
+            if isinstance(f, ast.Attribute) and f.attr in ('get_length',) and not n.args:
+                return L('LEN(%s)' % self.ev(f.value).key())
+            return super().call(n)
+
+        def ev(self, n):
+            if isinstance(n, ast.Attribute) and n.attr == 'length':
+                return L('LEN(%s)' % self.ev(n.value).key())
+            return super().ev(n)
+
+    def value(fn):
+        try:
+            fn = flatten(fn, module_lookup(mi))
+        except Exception:
+            pass
+        e = E()
+        for a in fn.args.args:
+            e.env[a.arg] = L(a.arg)
+        for st in fn.body:
+            if isinstance(st, ast.Assign) and len(st.targets) == 1 and isinstance(st.targets[0], ast.Name):
+                e.env[st.targets[0].id] = e.ev(st.value)
+            elif isinstance(st, ast.Return) and st.value is not None:
+                return e.ev(st.value)
+            elif isinstance(st, (ast.AnnAssign, ast.Expr)):
+                continue
+            else:
+                return None
+        return None
+    fn = mi.functions['doppler_shift']
+    lam, d, v = [a.arg for a in fn.args.args[:3]]
+    run.subject('C02-R8')
+    try:
+        got = value(fn)
+    except Exception:
+        got = None
+    dv = 'DOT(%s,%s)' % tuple(sorted([d, v]))
+    want = L(lam) * (C(1) + L(dv) / L('LEN(%s)' % d) / L('SPEED_OF_LIGHT'))
+    if got is None or any(l.startswith('?') for l in got.leaves()):
+        run.undecided('C02-R8', 'doppler_shift', 'not a straight-line arithmetic expression')
+    elif got.eq(want):
+        run.ok('C02-R8', 'doppler_shift', 'lambda (1 + v . d / |d| / c)')
+    else:
+        run.fail('C02-R8', K + 'doppler_shift', mi.relpath, fn.lineno,
+                 'doppler_shift returns %s (DOT: scalar product, LEN: vector length); documented: lambda (1 + v . d / |d| / c) -- the velocity '
+                 'projected on the *unit* viewing vector; for a viewing vector whose length is not 1 every component is shifted by the wrong '
+                 'amount' % got.key()[:160])
+    fn = mi.functions['thermal_broadening']
+    lam, T, A = [a.arg for a in fn.args.args[:3]]
+    run.subject('C02-R8')
+    try:
+        got = value(fn)
+        want = E().sqrt(L(T) * L('ELEMENTARY_CHARGE') / (L(A) * L('ATOMIC_MASS'))) * L(lam) / L('SPEED_OF_LIGHT')
+    except Exception:
+        got = None
+    if got is None or any(l.startswith('?') for l in got.leaves()):
+        run.undecided('C02-R8', 'thermal_broadening', 'not a straight-line arithmetic expression')
+    elif got.eq(want):
+        run.ok('C02-R8', 'thermal_broadening', 'sqrt(T e / (A m_u)) lambda / c')
+    else:
+        run.fail('C02-R8', K + 'thermal_broadening', mi.relpath, fn.lineno,
+                 'thermal_broadening returns %s; documented: sqrt(T e / (A m_u)) lambda / c' % got.key()[:160])
+    run.floor('C02-R8', 2)
 
 
 def _r3c(run, prog, classes):
